@@ -109,5 +109,4 @@ def expr(c):
 
 
 K.FAMILIES["leak"] = (gen_case, run_impl, expr)
-if "Leak" not in K.HEADER:
-    K.HEADER = K.HEADER.replace(" Run.", " Leak Run.")
+K.add_imports("Distrib", "Kinds", "Leak")
